@@ -1,6 +1,7 @@
 package explore
 
 import (
+	"os"
 	"strings"
 
 	"verif/internal/gen"
@@ -35,9 +36,13 @@ func Groups(o CaseOpts) []func() []Case {
 	cat := gen.Catalogue(o.Tier)
 	var groups []func() []Case
 	ncons := 0
+	only := os.Getenv("VERIF_ONLY_ENTRY") // development aid: restrict the sweep to entries whose id contains this text
 	for i := range cat {
 		e := &cat[i]
 		if o.OnlyFamily != "" && e.Family != o.OnlyFamily {
+			continue
+		}
+		if only != "" && !strings.Contains(e.ID, only) {
 			continue
 		}
 		if e.Family == "cons" {
@@ -71,7 +76,8 @@ func casesForEntry(e *gen.Entry, o CaseOpts, seedIdx int) []Case {
 				seeds := gen.ConsSeeds(v)
 				for si, s := range seeds {
 					out = append(out, Case{Entry: e, File: "main.tf", Text: s, Family: "seed", PosTo: -1})
-					if o.Prefixes && (si == 0 || thorough && si == 2) {
+					// (quick tier: byte prefixes of the short value texts only; the long ones are cut at every byte in the thorough tier)
+					if o.Prefixes && (si == 0 || thorough && si == 2) && (thorough || len(v) <= 26) {
 						// prefixes that cut inside the value (the prefix up to "attr = " is shared by all)
 						start := strings.Index(s, "=") + 1
 						for _, p := range gen.Prefixes(s) {
